@@ -80,11 +80,11 @@ def regenerate(log):
     out_dir = os.path.join(LEAN, "Rosmar", "Gen")
     os.makedirs(out_dir, exist_ok=True)
     h = hashlib.sha256(repo_fingerprint().encode())
-    for fn in ("main.go", "go.mod"):
+    for fn in ("main.go", "sql.go", "go.mod"):
         with open(os.path.join(gen_dir, fn), "rb") as f:
             h.update(f.read())
     stamp_path = os.path.join(WORK, "gen.stamp")
-    outs = [os.path.join(out_dir, "Pure.lean"), os.path.join(out_dir, "Facts.lean")]
+    outs = [os.path.join(out_dir, "Pure.lean"), os.path.join(out_dir, "Facts.lean"), os.path.join(out_dir, "Sql.lean")]
     if os.path.exists(stamp_path) and all(os.path.exists(o) for o in outs):
         with open(stamp_path) as f:
             st = json.load(f)
